@@ -1,6 +1,6 @@
 use crate::{
     context,
-    util::{Compact, TimeUntil},
+    util::{Compact, TimeUntil, MAX_TIMER_DELAY},
 };
 use fnv::FnvHashMap;
 use std::{
@@ -62,7 +62,7 @@ impl<Res> InFlightRequests<Res> {
     ) -> Result<(), AlreadyExistsError> {
         match self.request_data.entry(request_id) {
             hash_map::Entry::Vacant(vacant) => {
-                let timeout = ctx.deadline.time_until();
+                let timeout = ctx.deadline.time_until().min(MAX_TIMER_DELAY);
                 let deadline_key = self.deadlines.insert(request_id, timeout);
                 vacant.insert(RequestData {
                     ctx,
